@@ -827,6 +827,7 @@ func c20(p *core.Program, r *core.Report) {
 		r.Check(idOK, r1, "xy.SimplifyFlatCoords/identity-small", p.Pos(fn.Pos()), true, "size < 3 returns ret[i] = i", "the size < 3 path does not return the identity")
 	}
 	strideRule(p, r, "stride-discipline", []strideTarget{{"xy", "dpWorker", "all"}, {"xy", rdpDistanceName(p), "xy"}, {"xy", "SimplifyFlatCoords", "all"}})
+	pointSegmentFormulaRule(p, r, "point-segment-formula", []pointSegTarget{{"xy", rdpDistanceName(p), 2}}, 1)
 	clampedProjectionRule(p, r, "segment-distance-clamped", [][2]string{{"xy", rdpDistanceName(p)}})
 	rdpScanRule(p, r, "candidate-scan-exhaustive")
 	rdpSingleDecisionRule(p, r, "single-decision-point")
